@@ -3427,6 +3427,16 @@ where
     where
         K::Scalar: CoordinateScalar,
     {
+        #[cfg(delaunay_verif)]
+        crate::verif::tick::tick("insert.attempt");
+        #[cfg(delaunay_verif)]
+        if crate::verif::fail::hit("insert.attempt.entry") {
+            return Err(InsertionError::TopologyValidation(
+                TdsValidationError::InconsistentDataStructure {
+                    message: "verif: injected retryable failure at insert.attempt.entry".to_string(),
+                },
+            ));
+        }
         let (ok, cells_removed, mut suspicion) =
             self.try_insert_impl(vertex, conflict_cells, hint)?;
 
@@ -3439,6 +3449,20 @@ where
             return Ok((ok, cells_removed, suspicion));
         }
 
+        #[cfg(delaunay_verif)]
+        if crate::verif::fail::hit("insert.validate_after") {
+            let validation_err =
+                TriangulationValidationError::Tds(TdsValidationError::InconsistentDataStructure {
+                    message: "verif: injected Level 3 failure after insertion".to_string(),
+                });
+            self.tds = tds_snapshot.clone();
+            return self.try_star_split_fallback_after_topology_failure(
+                vertex,
+                hint,
+                attempt,
+                &validation_err,
+            );
+        }
         if let Err(validation_err) = self.validate_after_insertion(suspicion) {
             // Roll back to snapshot and attempt a star-split fallback for interior points.
             self.tds = tds_snapshot.clone();
@@ -3806,6 +3830,17 @@ where
         #[cfg(not(debug_assertions))]
         let _ = point;
 
+        #[cfg(delaunay_verif)]
+        if fallback_cell.is_none()
+            && !conflict_cells.is_empty()
+            && crate::verif::fail::hit("insert.outside.cavity_degenerate")
+        {
+            return Err(InsertionError::ConflictRegion(ConflictError::OpenBoundary {
+                facet_count: 1,
+                ridge_vertex_count: D.saturating_sub(1),
+                open_cell: conflict_cells[0],
+            }));
+        }
         if conflict_cells.is_empty() {
             let Some(start_cell) = fallback_cell else {
                 return Err(InsertionError::CavityFilling {
@@ -3849,6 +3884,18 @@ where
                         break;
                     }
                     iterations += 1;
+                    #[cfg(delaunay_verif)]
+                    {
+                        crate::verif::tick::tick("insert.cavity_iter");
+                        if iterations
+                            > crate::verif::knob::get(
+                                "insert.max_cavity_iterations",
+                                MAX_CAVITY_ITERATIONS,
+                            )
+                        {
+                            break;
+                        }
+                    }
 
                     match &extraction_result {
                         // RidgeFan: SHRINK – remove the cells contributing extra boundary facets.
@@ -4022,6 +4069,20 @@ where
 
         // Fill cavity BEFORE removing old cells
         let new_cells = fill_cavity(&mut self.tds, v_key, &boundary_facets)?;
+        #[cfg(delaunay_verif)]
+        if crate::verif::fail::hit("insert.cavity.filled.retry") {
+            return Err(InsertionError::TopologyValidation(
+                TdsValidationError::InconsistentDataStructure {
+                    message: "verif: injected retryable failure at insert.cavity.filled".to_string(),
+                },
+            ));
+        }
+        #[cfg(delaunay_verif)]
+        if crate::verif::fail::hit("insert.cavity.filled.fatal") {
+            return Err(InsertionError::CavityFilling {
+                message: "verif: injected fatal failure at insert.cavity.filled".to_string(),
+            });
+        }
         self.canonicalize_positive_orientation_for_cells(&new_cells)
             .map_err(|e| TdsValidationError::InconsistentDataStructure {
                 message: format!(
@@ -4038,9 +4099,35 @@ where
             external_facets.iter().copied(),
             Some(&conflict_cells),
         )?;
+        #[cfg(delaunay_verif)]
+        if crate::verif::fail::hit("insert.cavity.wired.retry") {
+            return Err(InsertionError::NeighborWiring {
+                message: "Non-manifold topology (verif: injected at insert.cavity.wired)".to_string(),
+            });
+        }
+        #[cfg(delaunay_verif)]
+        if crate::verif::fail::hit("insert.cavity.wired.fatal") {
+            return Err(InsertionError::CavityFilling {
+                message: "verif: injected fatal failure at insert.cavity.wired".to_string(),
+            });
+        }
 
         // Remove conflict cells (now that new cells are wired up)
         let _removed_count = self.tds.remove_cells_by_keys(&conflict_cells);
+        #[cfg(delaunay_verif)]
+        if crate::verif::fail::hit("insert.cavity.removed.retry") {
+            return Err(InsertionError::TopologyValidation(
+                TdsValidationError::InconsistentDataStructure {
+                    message: "verif: injected retryable failure at insert.cavity.removed".to_string(),
+                },
+            ));
+        }
+        #[cfg(delaunay_verif)]
+        if crate::verif::fail::hit("insert.cavity.removed.fatal") {
+            return Err(InsertionError::CavityFilling {
+                message: "verif: injected fatal failure at insert.cavity.removed".to_string(),
+            });
+        }
 
         // Iteratively repair non-manifold topology until facet sharing is valid
         let mut total_removed = 0;
@@ -4052,6 +4139,15 @@ where
             )
         )]
         for iteration in 0..MAX_REPAIR_ITERATIONS {
+            #[cfg(delaunay_verif)]
+            {
+                crate::verif::tick::tick("insert.facet_repair_iter");
+                if iteration
+                    >= crate::verif::knob::get("insert.max_repair_iterations", MAX_REPAIR_ITERATIONS)
+                {
+                    break;
+                }
+            }
             // Check for non-manifold issues in newly created cells (local scan)
             let cells_to_check: CellKeyBuffer = new_cells
                 .iter()
@@ -4158,6 +4254,20 @@ where
         {
             vertex.incident_cell = Some(incident_cell);
         }
+        #[cfg(delaunay_verif)]
+        if crate::verif::fail::hit("insert.cavity.normalized.retry") {
+            return Err(InsertionError::TopologyValidation(
+                TdsValidationError::InconsistentDataStructure {
+                    message: "verif: injected retryable failure at insert.cavity.normalized".to_string(),
+                },
+            ));
+        }
+        #[cfg(delaunay_verif)]
+        if crate::verif::fail::hit("insert.cavity.normalized.fatal") {
+            return Err(InsertionError::CavityFilling {
+                message: "verif: injected fatal failure at insert.cavity.normalized".to_string(),
+            });
+        }
 
         // Optional debug: validate neighbor pointers by forcing a full facet walk (no hint).
         #[cfg(debug_assertions)]
@@ -4206,6 +4316,20 @@ where
 
         // Connectedness guard (STRUCTURAL SAFETY, NOT Level 3 validation)
         self.validate_connectedness(&new_cells)?;
+        #[cfg(delaunay_verif)]
+        if crate::verif::fail::hit("insert.cavity.connected.retry") {
+            return Err(InsertionError::TopologyValidation(
+                TdsValidationError::InconsistentDataStructure {
+                    message: "verif: injected retryable failure at insert.cavity.connected".to_string(),
+                },
+            ));
+        }
+        #[cfg(delaunay_verif)]
+        if crate::verif::fail::hit("insert.cavity.connected.fatal") {
+            return Err(InsertionError::CavityFilling {
+                message: "verif: injected fatal failure at insert.cavity.connected".to_string(),
+            });
+        }
 
         // Return hint for next insertion
         Ok((hint, total_removed))
@@ -4247,6 +4371,21 @@ where
             .insert_vertex_with_mapping(vertex)
             .map_err(TriangulationConstructionError::from)?;
 
+        #[cfg(delaunay_verif)]
+        if crate::verif::fail::hit("insert.vertex_added.retry") {
+            return Err(InsertionError::TopologyValidation(
+                TdsValidationError::InconsistentDataStructure {
+                    message: "verif: injected retryable failure at insert.vertex_added".to_string(),
+                },
+            ));
+        }
+        #[cfg(delaunay_verif)]
+        if crate::verif::fail::hit("insert.vertex_added.fatal") {
+            return Err(InsertionError::CavityFilling {
+                message: "verif: injected fatal failure at insert.vertex_added".to_string(),
+            });
+        }
+
         // 2. Check if we need to bootstrap the initial simplex
         let num_vertices = self.tds.number_of_vertices();
 
@@ -4264,6 +4403,20 @@ where
 
             // Replace empty TDS with simplex TDS (preserve kernel)
             self.tds = new_tds;
+            #[cfg(delaunay_verif)]
+            if crate::verif::fail::hit("insert.bootstrap_simplex.retry") {
+                return Err(InsertionError::TopologyValidation(
+                TdsValidationError::InconsistentDataStructure {
+                    message: "verif: injected retryable failure at insert.bootstrap_simplex".to_string(),
+                },
+            ));
+            }
+            #[cfg(delaunay_verif)]
+            if crate::verif::fail::hit("insert.bootstrap_simplex.fatal") {
+                return Err(InsertionError::CavityFilling {
+                message: "verif: injected fatal failure at insert.bootstrap_simplex".to_string(),
+            });
+            }
 
             // Re-map vertex key to the rebuilt TDS
             v_key = self
@@ -4325,6 +4478,20 @@ where
             }
         }
 
+        #[cfg(delaunay_verif)]
+        if crate::verif::fail::hit("insert.located.retry") {
+            return Err(InsertionError::TopologyValidation(
+                TdsValidationError::InconsistentDataStructure {
+                    message: "verif: injected retryable failure at insert.located".to_string(),
+                },
+            ));
+        }
+        #[cfg(delaunay_verif)]
+        if crate::verif::fail::hit("insert.located.fatal") {
+            return Err(InsertionError::CavityFilling {
+                message: "verif: injected fatal failure at insert.located".to_string(),
+            });
+        }
         // 4. Determine conflict cells (for interior points)
         let conflict_cells = match (location, conflict_cells) {
             (LocateResult::InsideCell(start_cell), None) => {
@@ -4438,6 +4605,20 @@ where
             }
         };
 
+        #[cfg(delaunay_verif)]
+        if crate::verif::fail::hit("insert.conflict.retry") {
+            return Err(InsertionError::TopologyValidation(
+                TdsValidationError::InconsistentDataStructure {
+                    message: "verif: injected retryable failure at insert.conflict".to_string(),
+                },
+            ));
+        }
+        #[cfg(delaunay_verif)]
+        if crate::verif::fail::hit("insert.conflict.fatal") {
+            return Err(InsertionError::CavityFilling {
+                message: "verif: injected fatal failure at insert.conflict".to_string(),
+            });
+        }
         // 5. Handle different location results
         match location {
             LocateResult::InsideCell(start_cell) => {
@@ -4567,6 +4748,20 @@ where
                         return Err(err);
                     }
                 };
+                #[cfg(delaunay_verif)]
+                if crate::verif::fail::hit("insert.hull.extended.retry") {
+                    return Err(InsertionError::TopologyValidation(
+                TdsValidationError::InconsistentDataStructure {
+                    message: "verif: injected retryable failure at insert.hull.extended".to_string(),
+                },
+            ));
+                }
+                #[cfg(delaunay_verif)]
+                if crate::verif::fail::hit("insert.hull.extended.fatal") {
+                    return Err(InsertionError::CavityFilling {
+                message: "verif: injected fatal failure at insert.hull.extended".to_string(),
+            });
+                }
                 self.canonicalize_positive_orientation_for_cells(&new_cells)?;
                 #[cfg(debug_assertions)]
                 if std::env::var_os("DELAUNAY_DEBUG_HULL").is_some() {
@@ -4636,6 +4831,18 @@ where
                     )
                 )]
                 for iteration in 0..MAX_REPAIR_ITERATIONS {
+                    #[cfg(delaunay_verif)]
+                    {
+                        crate::verif::tick::tick("insert.hull_repair_iter");
+                        if iteration
+                            >= crate::verif::knob::get(
+                                "insert.max_repair_iterations",
+                                MAX_REPAIR_ITERATIONS,
+                            )
+                        {
+                            break;
+                        }
+                    }
                     // Check for non-manifold issues in newly created hull cells (local scan)
                     // This keeps the repair O(k·D) where k is the number of new hull cells, rather than O(N·D)
                     let cells_to_check: CellKeyBuffer = new_cells
@@ -4751,6 +4958,20 @@ where
                     }
                 }
 
+                #[cfg(delaunay_verif)]
+                if crate::verif::fail::hit("insert.hull.normalized.retry") {
+                    return Err(InsertionError::TopologyValidation(
+                TdsValidationError::InconsistentDataStructure {
+                    message: "verif: injected retryable failure at insert.hull.normalized".to_string(),
+                },
+            ));
+                }
+                #[cfg(delaunay_verif)]
+                if crate::verif::fail::hit("insert.hull.normalized.fatal") {
+                    return Err(InsertionError::CavityFilling {
+                message: "verif: injected fatal failure at insert.hull.normalized".to_string(),
+            });
+                }
                 // Detect isolated vertices and treat as retryable degeneracy.
                 if self.tds.vertices().any(|(_, v)| v.incident_cell.is_none()) {
                     return Err(InsertionError::TopologyValidation(
@@ -4764,6 +4985,20 @@ where
 
                 // Connectedness guard (localized): ensure the newly created cell set is internally
                 // connected and attached to the existing triangulation.
+                #[cfg(delaunay_verif)]
+                if crate::verif::fail::hit("insert.hull.connected.retry") {
+                    return Err(InsertionError::TopologyValidation(
+                TdsValidationError::InconsistentDataStructure {
+                    message: "verif: injected retryable failure at insert.hull.connected".to_string(),
+                },
+            ));
+                }
+                #[cfg(delaunay_verif)]
+                if crate::verif::fail::hit("insert.hull.connected.fatal") {
+                    return Err(InsertionError::CavityFilling {
+                message: "verif: injected fatal failure at insert.hull.connected".to_string(),
+            });
+                }
                 self.validate_connectedness(&new_cells)?;
 
                 // Return vertex key and hint for next insertion
@@ -4880,6 +5115,13 @@ where
                     ),
                 })?;
 
+            #[cfg(delaunay_verif)]
+            if crate::verif::fail::hit("remove.fan_filled") {
+                return Err(TdsValidationError::InconsistentDataStructure {
+                    message: "verif: injected failure at remove.fan_filled".to_string(),
+                }
+                .into());
+            }
             // Wire neighbors for the new cells (while both old and new cells exist)
             let external_facets =
                 external_facets_for_boundary(&self.tds, &cells_to_remove, &boundary_facets)
@@ -4896,10 +5138,24 @@ where
                 message: format!("Neighbor wiring failed: {e}"),
             })?;
 
+            #[cfg(delaunay_verif)]
+            if crate::verif::fail::hit("remove.wired") {
+                return Err(TdsValidationError::InconsistentDataStructure {
+                    message: "verif: injected failure at remove.wired".to_string(),
+                }
+                .into());
+            }
             // Remove the cells containing the vertex (now that new cells are wired up)
             // Note: remove_cells_by_keys() automatically clears neighbor pointers in surviving
             // cells that reference removed cells (sets them to None/boundary)
             let mut cells_removed = self.tds.remove_cells_by_keys(&cells_to_remove);
+            #[cfg(delaunay_verif)]
+            if crate::verif::fail::hit("remove.cells_removed") {
+                return Err(TdsValidationError::InconsistentDataStructure {
+                    message: "verif: injected failure at remove.cells_removed".to_string(),
+                }
+                .into());
+            }
 
             // Validate facet topology for newly created cells (O(k*D) localized check)
             if let Some(issues) = self.detect_local_facet_issues(&new_cells)? {
@@ -4927,6 +5183,13 @@ where
             }
             // Fan retriangulation may produce locally inconsistent slot orderings; normalize
             // orientation before rebuilding incidence and removing the vertex.
+            #[cfg(delaunay_verif)]
+            if crate::verif::fail::hit("remove.before_normalize") {
+                return Err(TdsValidationError::InconsistentDataStructure {
+                    message: "verif: injected failure at remove.before_normalize".to_string(),
+                }
+                .into());
+            }
             self.tds.normalize_coherent_orientation()?;
             self.canonicalize_global_orientation_sign().map_err(|e| {
                 TdsValidationError::InconsistentDataStructure {
@@ -4943,11 +5206,32 @@ where
                 }
             })?;
 
+            #[cfg(delaunay_verif)]
+            if crate::verif::fail::hit("remove.oriented") {
+                return Err(TdsValidationError::InconsistentDataStructure {
+                    message: "verif: injected failure at remove.oriented".to_string(),
+                }
+                .into());
+            }
             // Rebuild vertex-cell incidence for all vertices
             self.tds.assign_incident_cells()?;
 
+            #[cfg(delaunay_verif)]
+            if crate::verif::fail::hit("remove.incident_assigned") {
+                return Err(TdsValidationError::InconsistentDataStructure {
+                    message: "verif: injected failure at remove.incident_assigned".to_string(),
+                }
+                .into());
+            }
             // Remove the vertex using Tds method (handles internal bookkeeping)
             self.tds.remove_vertex(vertex)?;
+            #[cfg(delaunay_verif)]
+            if crate::verif::fail::hit("remove.vertex_removed") {
+                return Err(TdsValidationError::InconsistentDataStructure {
+                    message: "verif: injected failure at remove.vertex_removed".to_string(),
+                }
+                .into());
+            }
 
             Ok(cells_removed)
         })();
